@@ -436,14 +436,28 @@ class Runner:
         sargs = [good_sargs(rng)] if rng.random() < 0.3 else []
         ids = P.InIds()
         inp = self._inp = P.line('copynew', P.e_astr(x, ids), [len(sargs)], *[P.e_sarg(a) for a in sargs])
-        kind = rng.choice(['ctor', 'copy', 'AnsiStr'])
+        kind = rng.choice(['ctor', 'copy', 'AnsiStr', 'AnsiStr', 'deepcopy', 'pickle'])
+        pyc = []
         def run():
             if kind == 'copy' and not sargs:
                 return x.copy()
+            if kind in ('deepcopy', 'pickle') and not sargs:
+                # the copies Python itself makes of the mutable class: equal, and sharing nothing
+                import copy as _copy, pickle as _pickle
+                return _copy.deepcopy(x) if kind == 'deepcopy' else _pickle.loads(_pickle.dumps(x, rng.choice([2, 3, 4, 5])))
             if kind == 'AnsiStr':
                 t = self.S(x, *[P.build_sarg(a, self.mod) for a in sargs])
                 self.frozen.append((t, O.Snap(t._s)))
-                del self.frozen[:-3]
+                if rng.random() < 0.6:
+                    # … and of the immutable one (copy protocol of a str subclass: __new__ from
+                    # __getnewargs__, then the instance dict is put back): a reachable AnsiStr like any other
+                    import copy as _copy, pickle as _pickle
+                    how = rng.choice(['copy.copy', 'copy.deepcopy', 'pickle'])
+                    t2 = (_copy.copy(t) if how == 'copy.copy' else _copy.deepcopy(t) if how == 'copy.deepcopy'
+                          else _pickle.loads(_pickle.dumps(t, rng.choice([0, 1, 2, 3, 4, 5]))))
+                    pyc.append((how, t, t2))
+                    self.frozen.append((t2, O.Snap(t2._s)))
+                del self.frozen[:-4]
                 return self.A(t)
             return self.A(x, *[P.build_sarg(a, self.mod) for a in sargs])
         (out), fv = self.framed([], lambda: self.call(run))
@@ -455,6 +469,11 @@ class Runner:
                 if not (y == x) or O.Snap(y).render != O.Snap(x).render:
                     viol.append(('C08', 'copy_eq', kind))
             self.add_live(y)
+        for how, t, t2 in pyc:
+            if type(t2) is not type(t) or not (t2 == t) or str.__str__(t2) != str.__str__(t) or not O.same_value(O.Snap(t2._s), O.Snap(t._s)):
+                viol.append(('C13', 'ansistr_pycopy', '%s of an AnsiStr is not the AnsiStr: payload %r / rendering %r, original %r' % (
+                    how, str.__str__(t2), t2._s.to_str(), str.__str__(t))))
+                viol.append(('C08', 'copy_eq', '%s of an AnsiStr differs from it' % how))
         self.emit('copynew', inp, self.outcome_line(out, P.ok_astr), '%s of %r %r' % (kind, x._s, sargs), viol)
 
     # ----------------------------------------------------------------- apply / remove
